@@ -35,8 +35,14 @@ func (c *controllerFacade) handleState(ctx context.Context, dryRun bool, fn func
 	if err != nil {
 		return err
 	}
+	// The transaction may be nested in the caller's one (atomic bulk): it is then a savepoint,
+	// and rolling back to a savepoint already released by Commit is an error which aborts
+	// the enclosing transaction. Only roll back what has not been ended below.
+	done := false
 	defer func() {
-		_ = ctrl.Rollback(ctx)
+		if !done {
+			_ = ctrl.Rollback(ctx)
+		}
 	}()
 
 	if err := withLock(ctx, ctrl, func(ctrl ledgercontroller.Controller, conn bun.IDB) error {
@@ -99,11 +105,13 @@ func (c *controllerFacade) handleState(ctx context.Context, dryRun bool, fn func
 		if err := ctrl.Commit(ctx); err != nil {
 			return fmt.Errorf("failed to commit transaction: %w", err)
 		}
+		done = true
 
 		c.mu.Lock()
 		c.ledger.State = ledger.StateInUse
 		c.mu.Unlock()
 	} else {
+		done = true
 		if err := ctrl.Rollback(ctx); err != nil {
 			return fmt.Errorf("failed to rollback transaction: %w", err)
 		}
